@@ -30,7 +30,7 @@ META = {
 }
 
 NAMES = ["e", "f", "value"]
-ATTRS = ["x", "value", "attr", "id", "func", "args", "ctx", "elts", "slice", "lineno"]
+ATTRS = ["x", "value", "attr", "id", "func", "args", "ctx", "elts", "slice", "lineno", "real", "upper"]
 CONSTS = ["1", "2.5", "'a'", "True", "None"]
 L0 = [(n, "Name") for n in NAMES] + [(c, "Const") for c in CONSTS]
 
@@ -45,7 +45,7 @@ def unary_forms(a):
         (f"{{'k': ({t})}}", "Dict1"), (f"{{'jet-pt': ({t})}}", "DictHyphen"), (f"{{'class': ({t})}}", "DictKeyword"),
         (f"{{'': ({t})}}", "DictEmptyKey"), (f"{{'self': ({t}), 'cls': 1}}", "DictSelfKey"), (f"{{'__debug__': ({t})}}", "DictDebugKey"), (f"{{'self': ({t})}}.self", "DictSelfKeyAttr"), (f"{{'a b': ({t})}}", "DictSpace"), (f"({t}).m()", "Method0"),
         (f"({t},)[0]", "TupLitIdx"), (f"{{'k': ({t})}}.k", "DictLitAttr"), (f"{{'k': ({t})}}['k']", "DictLitKey"),
-        (f"({t}).x[0](1)", "CallOfSubscriptOfAttr"),
+        (f"({t}).x[0](1)", "CallOfSubscriptOfAttr"), (f"({t}).__call__(1)", "DunderCall"), (f"({t})[(e).x]", "SubRuntimeKey"),
         # methods python's own value types really have (with defaults the caller leaves out / with no inspectable signature)
         (f"({t}).strip()", "BuiltinStrip"), (f"({t}).encode()", "BuiltinEncode"), (f"({t}).count('a')", "BuiltinCount"), (f"({t}).split(',')", "BuiltinSplit"),
         (f"({t}).conjugate()", "BuiltinConjugate"), (f"({t}).to_bytes(2, 'big')", "BuiltinToBytes"), (f"({t}).is_integer()", "BuiltinIsInteger"),
@@ -115,12 +115,23 @@ def kind(n):
         return "unknown"
     if isinstance(n, ast.BinOp):
         kl, kr = kind(n.left), kind(n.right)
-        if "unknown" in (kl, kr) and all(k in ("num", "unknown", "bool", "str", "other") for k in (kl, kr)):
-            # library: Any if either side Any, else int/float -> both fine for the rule
-            return "unknown" if "unknown" in (kl, kr) else "num"
-        return "num"
+        if "unknown" in (kl, kr):
+            return "unknown"
+        if kl in ("num", "bool") and kr in ("num", "bool"):
+            return "num"
+        # what python computes for text: 'a' + 'b', 'ab' * 2, 2 * 'ab', '%d' % n
+        if isinstance(n.op, ast.Add) and kl == kr == "str":
+            return "str"
+        if isinstance(n.op, ast.Mult) and {kl, kr} in ({"str", "num"}, {"str", "bool"}) and not any(isinstance(x, ast.Constant) and type(x.value) is float for x in (n.left, n.right)):
+            return "str"
+        if isinstance(n.op, ast.Mod) and kl == "str":
+            return "str"
+        return "other"
     if isinstance(n, ast.UnaryOp):
-        return kind(n.operand)
+        if isinstance(n.op, ast.Not):
+            return "bool"
+        ko = kind(n.operand)
+        return "num" if ko == "bool" else ("other" if ko == "str" else ko)
     if isinstance(n, ast.IfExp):
         kb, ko = kind(n.body), kind(n.orelse)
         if kb == ko and kb in ("num", "unknown", "bool", "str"):
@@ -154,6 +165,34 @@ def kind(n):
     return "other"
 
 
+def _shape(n):
+    """the tree with every name, attribute name and constant value blanked (constants keep their type): two expressions of one
+    shape are the same kind of thing whatever one's notion of kind"""
+    import copy
+
+    c = copy.deepcopy(n)
+    for x in ast.walk(c):
+        if isinstance(x, ast.Name):
+            x.id = "_"
+        elif isinstance(x, ast.Attribute) and not isinstance(x.value, ast.Dict):
+            x.attr = "_"
+        elif isinstance(x, ast.Constant):
+            x.value = type(x.value).__name__
+    return astx.dump_fields(c)
+
+
+def same_dict_shape(a, b):
+    if not (isinstance(a, ast.Dict) and isinstance(b, ast.Dict)):
+        return False
+    if not all(isinstance(k, ast.Constant) and isinstance(k.value, str) for k in a.keys + b.keys):
+        return False
+    ka, kb = [k.value for k in a.keys], [k.value for k in b.keys]
+    if len(set(ka)) != len(ka) or set(ka) != set(kb):
+        return False
+    fb = dict(zip(kb, b.values))
+    return all(same_dict_shape(v, fb[k]) or _shape(v) == _shape(fb[k]) for k, v in zip(ka, a.values))
+
+
 def refusal_classes(body):
     """Syntactic refusal triggers present in the lambda body (see DESIGN.md C10)."""
     r = set()
@@ -166,7 +205,7 @@ def refusal_classes(body):
                 r.add("r2-tuple-index")
         if isinstance(n, ast.Subscript) and isinstance(n.value, ast.Dict):
             keys = [k.value for k in n.value.keys if isinstance(k, ast.Constant)]
-            if not (isinstance(n.slice, ast.Constant) and n.slice.value in keys):
+            if isinstance(n.slice, ast.Constant) and n.slice.value not in keys:
                 r.add("r3-dict-key")
         if isinstance(n, ast.Attribute) and isinstance(n.value, ast.Dict):
             keys = [k.value for k in n.value.keys if isinstance(k, ast.Constant)]
@@ -176,7 +215,7 @@ def refusal_classes(body):
             kb, ko = kind(n.body), kind(n.orelse)
             ok = (kb in ("num", "unknown") and ko in ("num", "unknown")) or (kb == ko and kb in ("bool", "str"))
             # two dictionary displays with the same keys and the same (kinds of) values are the same kind of thing
-            if isinstance(n.body, ast.Dict) and isinstance(n.orelse, ast.Dict) and astx.dump_fields(n.body) == astx.dump_fields(n.orelse):
+            if same_dict_shape(n.body, n.orelse):
                 ok = True
             if not ok:
                 r.add("r4-conditional")
@@ -224,21 +263,17 @@ def judge(ctx, ds, opname, mode, text, tag, depth, supply):
     """supply() performs the operator call and returns the stream."""
     lam_in = astx.parse_expr(text)
     body = lam_in.body
-    if not_python_evaluable(body):
-        ctx.count("not-generated:python-could-never-evaluate")
-        return
-    for n in astx.walk_nodes(body):
-        if isinstance(n, ast.Call) and isinstance(n.func, ast.Subscript) and isinstance(n.func.value, ast.Attribute) and kind(n.func.value.value) != "unknown":
-            # obj.prop[param](..) on an intrinsically typed receiver (a literal, a comparison ..) is the typed
-            # parameterized-call path, whose designed error for a missing property is AttributeError (repository test
-            # test_index_callback_bad_prop) - outside this property
-            ctx.count("not-judged:parameterized-call-on-typed-receiver")
-            return
+    never = not_python_evaluable(body)
     if mode == "callable" and has_called_lambda(body):
         # explicitly called lambdas are inlined by design when a python callable is supplied (C05's mechanism)
         ctx.count("not-judged:called-lambda-in-callable-mode")
         return
     rc = refusal_classes(body)
+    if never:
+        # python itself could never evaluate it ((a, b)['k']): refusing (ValueError) and emitting unchanged are both fine, an
+        # internal error is not
+        rc.add("r0-python-could-never-evaluate")
+        ctx.count("python-could-never-evaluate")
     key = f"{opname}|{mode}|{text}"
     ctx.case(key, nontrivial=depth >= 2)
     ctx.count(f"cell:{tag[0]}<-{'/'.join(tag[1:])}" if ctx.tier == "never" else "cells")
@@ -250,7 +285,7 @@ def judge(ctx, ds, opname, mode, text, tag, depth, supply):
         if rc:
             ctx.count("refusal:" + sorted(rc)[0])
             return
-        if opname == "Where" and not isinstance(body, (ast.Compare, ast.BoolOp)):
+        if opname == "Where" and not (isinstance(body, (ast.Compare, ast.BoolOp)) or (isinstance(body, ast.UnaryOp) and isinstance(body.op, ast.Not))):
             if "must return a boolean" in str(e):
                 ctx.count("refusal:non-boolean-Where")
                 return
